@@ -352,6 +352,16 @@ def extra_for(exprs):
     return chosen
 
 
+# coo_pos(rows, columns, len, i, j): some position of the two coordinate lists that addresses (i, j), if there is one (choice function)
+_AII = z3.ArraySort(I, I)
+coo_pos = z3.Function("coo_pos", _AII, _AII, I, I, I, I)
+EXTRA["coo_pos_def (choice function: if some position addresses (i, j), coo_pos is such a position)"] = z3.parse_smt2_string(
+    "(assert (forall ((r (Array Int Int)) (c (Array Int Int)) (n Int) (i Int) (j Int) (p Int)) "
+    "(! (=> (and (<= 0 p) (< p n) (= (select r p) i) (= (select c p) j)) "
+    "(and (<= 0 (coo_pos r c n i j)) (< (coo_pos r c n i j) n) (= (select r (coo_pos r c n i j)) i) (= (select c (coo_pos r c n i j)) j))) "
+    ":pattern ((select r p) (coo_pos r c n i j)))))", decls={"coo_pos": coo_pos})[0]
+
+
 def all_axioms(scope=None):
     from . import ty as T
     out = dict(THEORY)
